@@ -50,20 +50,26 @@ def equate(a: Quantity, b: Quantity) -> None:
     _plan_conversion.cache_clear()
 
 
+def zero_point(zero: Quantity) -> Tuple[Unit, Offset, Offset]:
+    """The degree of a scale with the given zero point, and the offsets to and from it"""
+    return zero.unit, -zero.magnitude, +zero.magnitude
+
+
 def translate(scale: Unit, zero: Quantity) -> None:
     """Defines a unit as a scale starting from the given zero point in another
     unit"""
     if scale == zero.unit:
         raise ValueError("No need to define conversions for a unit and itself")
 
-    degree = zero.unit
-    offset = zero.magnitude
+    # the offsets are worked out before anything is recorded, so that a zero point
+    # that cannot be used does not leave half a definition behind
+    degree, down, up = zero_point(zero)
 
     _ratios[degree][scale] = 1
     _ratios[scale][degree] = 1
 
-    _offsets[degree][scale] = -offset
-    _offsets[scale][degree] = +offset
+    _offsets[degree][scale] = down
+    _offsets[scale][degree] = up
 
     # paths and plans found (or not found) before this definition are stale now
     _find_path.cache_clear()
